@@ -508,6 +508,83 @@ impl DiskCache {
 
 } // impl DiskCache
 
+// ---- directory scan on re-open: which directory entries become tracked items (C13: "every cache file on disk belongs to a
+// tracked entry … across re-opening the directory with the same capacity, provided no single item is larger than the capacity")
+#[derive(PartialEq, Eq, Structural)]
+pub enum ErrorKind { NotFound, PermissionDenied, Other }
+pub struct IoError { pub k: u64 }
+impl IoError {
+    #[verifier::external_body]
+    fn kind(&self) -> ErrorKind { unimplemented!() }
+}
+impl From<IoError> for ChunkCacheError {
+    #[verifier::external_body]
+    fn from(e: IoError) -> (r: ChunkCacheError) ensures r is IO { ChunkCacheError::IO }
+}
+impl ChunkCacheError {
+    #[verifier::external_body]
+    fn general(value: String) -> (r: ChunkCacheError) ensures r is General { unimplemented!() }
+}
+pub mod io { pub type Result<T> = core::result::Result<T, super::IoError>; }
+// R7f outline of `format!` (vxlib/rules_extra/crashfs.py): the message text is irrelevant here
+#[verifier::external_body]
+fn vx_format(lead: &str, trail: &str) -> String { unimplemented!() }
+// a directory entry as the scan sees it: ghost name, and what `stat` says about it (if it still exists when asked)
+pub struct DirEntry { pub name: Ghost<Seq<u8>>, pub stat_ok: Ghost<bool>, pub is_file: Ghost<bool>, pub len: Ghost<u64> }
+pub struct Metadata { pub is_file: bool, pub len: u64 }
+pub struct OsString { pub bytes: Ghost<Seq<u8>> }
+impl OsString {
+    #[verifier::external_body]
+    fn as_encoded_bytes(&self) -> (r: &[u8]) ensures r@ == self.bytes@ { unimplemented!() }
+}
+impl Metadata {
+    fn is_file(&self) -> (r: bool) ensures r == self.is_file { self.is_file }
+    fn len(&self) -> (r: u64) ensures r == self.len { self.len }
+}
+impl DirEntry {
+    // stat: fails iff the entry is gone / unreadable (`stat_ok`), otherwise reports the entry's kind and length
+    #[verifier::external_body]
+    fn metadata(&self) -> (r: io::Result<Metadata>)
+        ensures r is Ok <==> self.stat_ok@, r matches Ok(md) ==> md.is_file == self.is_file@ && md.len == self.len@
+    { unimplemented!() }
+    #[verifier::external_body]
+    fn file_name(&self) -> (r: OsString) ensures r.bytes@ == self.name@ { unimplemented!() }
+    #[verifier::external_body]
+    fn path(&self) -> PathBuf { unimplemented!() }
+}
+#[verifier::external_body]
+fn remove_file(path: PathBuf) -> (r: Result<(), ChunkCacheError>) { unimplemented!() }
+// what an item file name decodes to (base64 of range start/end, len, crc), if it is one
+uninterp spec fn parse_name(name: Seq<u8>) -> Option<CacheItem>;
+impl CacheItem {
+    // stub of `CacheItem::parse` (cache_item.rs:143-162: base64 decode + four little-endian fields + start < end)
+    #[verifier::external_body]
+    fn parse(file_name: &[u8]) -> (r: Result<CacheItem, ChunkCacheError>)
+        ensures match r { Ok(ci) => parse_name(file_name@) == Some(ci), Err(_) => parse_name(file_name@) is None }
+    { unimplemented!() }
+}
+//@ extract chunk_cache/src/disk.rs const DEFAULT_CHUNK_CACHE_CAPACITY
+//@ end
+type OptionResult<T, E> = Result<Option<T>, E>;
+// a directory entry that is a complete cache item file as far as the scan can tell without reading it
+spec fn is_item_file(e: DirEntry, ci: CacheItem) -> bool {
+    e.stat_ok@ && e.is_file@ && parse_name(e.name@) == Some(ci) && ci.len == e.len@
+}
+
+//@ extract chunk_cache/src/disk.rs fn try_parse_cache_file
+//@ ret r
+//@ rules crashfs.R7f
+//@ contract
+    ensures
+        // soundness: whatever gets tracked is an item file no longer than the capacity, counted with its real length
+        // (this is what `init_count_step` needs: `cache_item.len <= capacity`)
+        /*@C13*/ r matches Ok(Some(ci)) ==> file_result is Ok && is_item_file(file_result->Ok_0, ci) && ci.len <= capacity,
+        // completeness: an item file that fits the capacity IS tracked — `Ok(None)` never swallows one
+        /*@C13*/ ({ let e = file_result->Ok_0; let ci = parse_name(e.name@).unwrap();
+            (file_result is Ok && parse_name(e.name@) is Some && is_item_file(e, ci) && ci.len <= capacity && ci.len <= DEFAULT_CHUNK_CACHE_CAPACITY)
+                ==> r == Ok::<Option<CacheItem>, ChunkCacheError>(Some(ci)) }),
+//@ end
+
 //@ extract chunk_cache/src/disk.rs fn index_of
 //@ ret r
 //@ rules R4a
